@@ -18,6 +18,10 @@ func main() {
 		childMain(os.Args[2:])
 		return
 	}
+	if len(os.Args) > 2 && os.Args[1] == "corpus" {
+		corpusMain(os.Args[2])
+		return
+	}
 	s := os.Getenv("COMPILEH_STREAM")
 	if s == "" {
 		s = "skel"
